@@ -37,14 +37,16 @@ VARIABLES tid, l, hidx, bucket
 tvars == <<vars, tid, l, hidx, bucket>>
 NB == 64     \* initial states; each worker picks the traces of one bucket (parallel judging)
 
-C(t)    == [i \in DOMAIN Traces[t].p |-> Alpha[Traces[t].p[i]]]   \* the input list
+(* the input list: alphabet indices (constructed objects) or, for lists extracted from documents,
+   the abstracted citations themselves *)
+C(t)    == [i \in DOMAIN Traces[t].p |-> IF Traces[t].p[i] = 0 THEN Conv(Traces[t].cs[i]) ELSE Alpha[Traces[t].p[i]]]
 G(t)    == Traces[t].g
 Len0(s) == Len(s)
 
 -----------------------------------------------------------------------------
 (* ---------- ground truth from the abstract citations (property text) ----- *)
 EqFull(c, d) ==
-    \/ (c.k = "fc" /\ d.k = "fc" /\ c.rv = d.rv /\ c.pg = d.pg /\ c.pg # NoPage)
+    \/ (c.k = "fc" /\ d.k = "fc" /\ c.rv = d.rv /\ c.pg = d.pg /\ c.pg # NoPage /\ c.id = d.id)
     \/ (c.k \in {"fl", "fj"} /\ c.k = d.k /\ c.id = d.id /\ c.pg = d.pg)
 (* representative (first equal full citation) of full position p *)
 Rep(cs, p) == CHOOSE q \in 1..p : /\ (q = p \/ EqFull(cs[q], cs[p]))
@@ -76,7 +78,7 @@ Cands(cs, g, i) ==
             ELSE LET h == g[GroupOf(g, i-1)].m[1] IN       \* head of the predecessor's group
                  IF h < 1 \/ ~IsFull(cs[h]) THEN {}
                  ELSE IF cs[h].pg = NoPage THEN {}              \* placeholder-page antecedent
-                 ELSE IF c.pin = NoPin \/ cs[h].pg = NoGroup THEN {Rep(cs, h)}
+                 ELSE IF c.pin = NoPin \/ cs[h].pg \in {NoGroup, NonNumeric} THEN {Rep(cs, h)}
                  ELSE IF c.pin = BadPin THEN {}
                  ELSE IF c.pin < cs[h].pg \/ c.pin > cs[h].pg + M THEN {}
                  ELSE {Rep(cs, h)}
@@ -119,7 +121,7 @@ Holds(cl, t) ==
                                       /\ ~(cs[q1].k = "fj" /\ cs[q1].pg = NoPage))
                                     => ((GroupOf(g, q1) = GroupOf(g, q2)) <=> EqFull(cs[q1], cs[q2]))
     [] cl = "C06.unknown"     -> \A q \in 1..n : cs[q].k = "un" => q \notin Members(g)
-    [] cl = "C07.neverguess"  -> \A q \in 1..n : (~IsFull(cs[q]) /\ GroupOf(g, q) # 0) =>
+    [] cl = "C07.neverguess"  -> \A q \in 1..n : (~IsFull(cs[q]) /\ cs[q].k # "rx" /\ GroupOf(g, q) # 0) =>
                                     LET h == g[GroupOf(g, q)].m[1] IN
                                     (h \in 1..n /\ IsFull(cs[h])) => Cands(cs, g, q) = {Rep(cs, h)}
     [] cl = "C07.idpredecessor" -> \A q \in 1..n : (cs[q].k = "id" /\ GroupOf(g, q) # 0) =>
@@ -136,7 +138,6 @@ Holds(cl, t) ==
 
 -----------------------------------------------------------------------------
 (* ---------- conformance: the model stepped along the recorded input ------- *)
-ObsHead(t, i) == LET j == GroupOf(G(t), i) IN IF j = 0 THEN 0 ELSE G(t)[j].m[1]
 ObsRaised(t)  == IF Traces[t].r = "" THEN "none"
                  ELSE SubSeq(Traces[t].r, 1, 14)     \* "AttributeError" has 14 characters
 
@@ -144,8 +145,19 @@ TInit == /\ Init /\ tid = 0 /\ l = 0 /\ hidx = <<>> /\ bucket \in 0..(NB - 1)
 Pick  == /\ tid = 0
          /\ \E t \in {x \in 1..NT : x % NB = bucket} : tid' = t
          /\ l' = 1 /\ UNCHANGED <<vars, hidx, bucket>>
+ObsHead(t, i) == LET j == GroupOf(G(t), i) IN IF j = 0 THEN 0 ELSE G(t)[j].m[1]
+(* a reference citation extracted from a document ("rx") is not modelled: its logged outcome is
+   bound to the model's variables (the unlogged rest is unchanged), as for an event whose action the
+   specification leaves open *)
+ObsRes(t, i) == LET h == ObsHead(t, i) IN
+                IF h = 0 \/ ~(\E r \in DOMAIN hidx : hidx[r] = h) THEN NoRes
+                ELSE CHOOSE r \in DOMAIN hidx : hidx[r] = h
+StepOrBind(c, i) == IF c.k = "rx"
+                    THEN /\ err = "none" /\ cur' = c /\ joined' = ObsRes(tid, i) /\ last' = ObsRes(tid, i)
+                         /\ err' = "none" /\ UNCHANGED <<fulls, nph>>
+                    ELSE Step(c)
 TStep == /\ tid # 0 /\ l <= Len(Traces[tid].p)
-         /\ Step(C(tid)[l])
+         /\ StepOrBind(C(tid)[l], l)
          /\ l' = l + 1
          /\ hidx' = IF IsFull(C(tid)[l]) /\ joined' \notin DOMAIN hidx
                     THEN hidx @@ (joined' :> l) ELSE hidx
